@@ -57,6 +57,17 @@ CLAIMED = {
             'explicit vocab for classification metrics, explicit range/edges for Histogram, equal seeds for samplers, non-negative '
             'input for MinMaxAndCount (documented preconditions); open finding F-C01-topk-truncation is steered around and reported.',
             '§3 C01'),
+    'C11': ('exploration',
+            'Hypothesis-generated merge bracketings/permutations and add/merge/result histories against a per-accumulator row-list model',
+            'algebra: for each registry entry 2..5 states (some empty) are merged under random permutations and bracketings - all must '
+            'give the reference value of the merged rows; an empty state must be neutral on both sides without raising; after '
+            'merge(a <- b) b still reports its own rows, later updates to either side never leak into the other. histories: generated '
+            'sequences of new/add/merge/result over a pool of accumulators where the model of an accumulator is the list of rows it '
+            'absorbed; every read (single, repeated, after later adds) must equal the reference of exactly that list, through both the '
+            'Metric and the AggregateFn API (merge_states may only modify its first state). Algebraic laws over generated histories: '
+            'exploration with a model oracle is the right level.',
+            'same input preconditions as C01; results only read from accumulators that absorbed data; histogram results additionally '
+            'checked to be copies (documented).', '§3 C11'),
 }
 
 PENDING_REASON = 'check not built yet in this session (work in progress; see DESIGN.md §9 build order) - not claimed until its check exists'
